@@ -177,11 +177,8 @@ func (h *c03Harness) monStep(ev string, lcpBefore [3]int, availBefore int) {
 	case "a":
 		k, _ := strconv.Atoi(f[1])
 		for i := 0; i < 3; i++ {
-			if h.monCur[i] != 0 && h.monCur[i] == k {
-				h.monCur[i] = 0
-				if f[2] == "acc" || f[2] == "accip" {
-					h.monOK[i] = true
-				}
+			if h.monCur[i] != 0 && h.monCur[i] == k && (f[2] == "acc" || f[2] == "accip") {
+				h.monOK[i] = true
 			}
 		}
 	}
